@@ -615,6 +615,42 @@ func c15Negatives(tier string, types []*c15Ty, fams []*c15Fam) []*c15Neg {
 			}
 		}
 	}
+	// one type parameter bound to two different argument types through the type arguments of a generic
+	// Kombination, in the parameters of a generic OPERATOR overload and of a generic function alias
+	// (each case declares its own Kombination so that the overloads of different cases do not meet)
+	kop := &c15Fam{key: "kisteop", nT: 1, entries: []c15Entry{{name: "f", params: "mit den Parametern a und b vom Typ T-Kiste{n} und T-Kiste{n}", ret: c15RetT, args: "<a> <b>", fwd: "a b"}},
+		generic: func(n int) string {
+			return c15N("Wir nennen die generische öffentliche Kombination aus\n\tdem öffentlichen T wert{n},\neine Kiste{n}, und erstellen sie so:\n\t\"eine Kiste{n} mit <wert{n}>\"\n\n"+
+				"Die öffentliche generische Funktion kop{n} mit den Parametern a und b vom Typ T-Kiste{n} und T-Kiste{n}, gibt ein T zurück, macht:\n\tGib wert{n} von a zurück.\nUnd überlädt den \"plus\" Operator.\n\n"+
+				c15Fun("f{n}", "mit den Parametern a und b vom Typ T-Kiste{n} und T-Kiste{n}", c15RetT, []string{"Gib wert{n} von b zurück."}, "f{n} <a> <b>"), n)
+		}}
+	for _, site := range []string{"decl-main", "importer"} {
+		for _, a := range types {
+			if !a.declarable || a.structLike || a.list == "" {
+				continue
+			}
+			ng, cx := mk(kop, site)
+			ng.key = "kisteop:" + a.key + "+*:" + site + ":first"
+			ng.tuple = a.key + "+*"
+			ng.kindIf = "two-types-accepted"
+			k := fmt.Sprintf("Kiste%d", ng.n)
+			x := cx.tmp()
+			ng.stmts = append(ng.stmts, c15Stmt{text: "Die " + a.name + "-" + k + " " + x + " ist eine " + k + " mit " + a.vals[0] + ".", what: "declaration"},
+				c15Stmt{text: c15Line("(wert" + fmt.Sprint(ng.n) + " von " + x + ")"), what: "valid field access"})
+			for _, b := range types {
+				if !b.declarable || b.structLike || b.list == "" || a.canonKey() == b.canonKey() {
+					continue
+				}
+				y := cx.tmp()
+				ng.stmts = append(ng.stmts, c15Stmt{text: "Die " + b.name + "-" + k + " " + y + " ist eine " + k + " mit " + b.vals[0] + ".", what: "declaration"},
+					c15Stmt{"Die Variable " + cx.tmp() + " ist (" + x + " plus " + y + ").", true, "operator overload: T is bound to " + a.key + " and to " + b.key},
+					c15Stmt{"Die Variable " + cx.tmp() + " ist (" + cx.fn("f") + " " + x + " " + y + ").", true, "function alias: T is bound to " + a.key + " and to " + b.key})
+			}
+			ng.stmts = append(ng.stmts, c15Stmt{text: "Die Variable " + cx.tmp() + " ist (" + x + " plus " + x + ").", what: "valid use of the overload"},
+				c15Stmt{text: "Die Variable " + cx.tmp() + " ist (" + cx.fn("f") + " " + x + " " + x + ").", what: "valid call"})
+			out = append(out, ng)
+		}
+	}
 	// a body that names a variable of the calling module
 	csv := &c15Fam{key: "callsitevar", nT: 1, entries: []c15Entry{{name: "f", params: c15P1, ret: c15RetT, args: "<a>", fwd: "a"}},
 		generic: func(n int) string {
